@@ -46,5 +46,56 @@ class RunPT(PropRunStream):
     corpus = [witness("D3' ")]
 
 
+# ---- the declaration path: inject_fixture attributes wherever they are written, inherited hooks, parametrized variants --------
+from props._declrun import DeclRunStream, DECLRUN_TRUSTED, DECLRUN_RULE
+from props import _declrun_corpus as DC
+from props._decl import DECL_TRUSTED
+from props import _inject_table
+
+
+class DeclRun(DeclRunStream):
+    """run-level projects DECLARED as classes (injected fixtures in the class body / a base class / a shared mixin / __init__,
+    hooks own or inherited, parametrized groups using fixtures of every scope) and loaded by the real loader"""
+    name = "C03.declrun"
+    prop = "C03"
+    profile = "basic"
+    oracles = ("C03",)
+    quick_cases = 200
+    quick_seconds = 22
+    thorough_cases = 2500
+    thorough_seconds = 300
+    p_interrupt = 0.1
+    decl_opts = dict(p_inject_more=0.55, p_base=0.65, p_shared=0.5, p_group=0.4)
+    corpus = DC.C03_CORPUS
+
+
+LEAN_MODULES = LEAN_MODULES + ["LccModel.Props.C03Decl"]
+PROPS_FILES = PROPS_FILES + ["LccModel/Props/C03Decl.lean"]
+NAMESPACES = dict(NAMESPACES, **{"LccModel/Props/C03Decl.lean": "LccModel.C03Decl"})
+TRUSTED_BASE = TRUSTED_BASE + DECL_TRUSTED + DECLRUN_TRUSTED
+RULE = RULE + "; " + DECLRUN_RULE
+TABLE_OPENS = ("LccModel.SuiteObj",)
+
+
+def tables(ctx):
+    return _inject_table.tables(ctx) + _hooks_table.tables(ctx)
+
+
+# ---- the hooks in every shape (method / staticmethod / classmethod / lambda / function assigned in __init__ / partial / callable object
+#      / imported function) and place (class body / base class / mixin / __init__ / suite module) ----------------------------------------
+from props import _hooks, _hooks_table
+
+
+class Hooks(_hooks.HooksStream):
+    name = "C03.hooks"
+
+
+LEAN_MODULES = LEAN_MODULES + ["LccModel.Props.C03Hooks"]
+PROPS_FILES = PROPS_FILES + ["LccModel/Props/C03Hooks.lean"]
+NAMESPACES = dict(NAMESPACES, **{"LccModel/Props/C03Hooks.lean": "LccModel.C03Hooks"})
+TRUSTED_BASE = TRUSTED_BASE + _hooks.HOOKS_TRUSTED
+RULE = RULE + "; " + _hooks.HOOKS_RULE
+
+
 def streams(ctx):
-    return [Run(), RunPT()]
+    return [Hooks(), Run(), RunPT(), DeclRun()]
